@@ -32,6 +32,7 @@ def main():
     ap.add_argument("--replay", default=None)
     a = ap.parse_args()
     seed = a.seed if a.seed is not None else common.seed_from_env()
+    os.environ["VERIF_TIER_EFFECTIVE"] = a.tier
     reg = registry()
     if a.prop not in reg:
         print("unknown property", a.prop)
